@@ -126,7 +126,7 @@ def up(ctx):
             f = fs[0]
             lanes = []
             for l in v.fsm_leaves(f):
-                if l.kind == "nextvalue" and key(l.target) == "sel":
+                if l.kind == "nextvalue" and isinstance(l.target, Obj) and any(isinstance(t_, Op) and t_.op == "<<" and is1(t_.args[0]) for t_ in subterms(l.value)):
                     for t in subterms(l.value):
                         if isinstance(t, Op) and t.op == "<<" and is1(t.args[0]):
                             lanes.append((l, t.args[1]))
@@ -152,7 +152,8 @@ def up(ctx):
                 if "[%d:]" % k not in ks:
                     ob.refute("up-addr-changed:%s" % tag, "address-change detection %s does not compare the wide-address bits [%d:]" % (ks, k), None)
             # mask widening
-            ws = [l for l in v.leaves if l.kind == "assign" and l.domain.startswith("sync") and key(l.target) == "wdata_sel"]
+            ws = [l for l in v.leaves if l.kind == "assign" and l.domain.startswith("sync") and isinstance(l.value, Op) and l.value.op == "Cat"
+                  and all(isinstance(a, Op) and a.op == "Replicate" for a in l.value.args) and "cmd_buffer.source.sel" in support(l.value)]
             if not ob.need(len(ws) == 1, "%s: wdata_sel register update not found" % tag):
                 continue
             val = ws[0].value
@@ -177,7 +178,7 @@ def up(ctx):
                           "word of the previous command still waits at the converter output, whose bytes are then masked with the next command's "
                           "selection" % (sorted(g), sorted(need - g)), ws[0].loc)
             app = [l for l in v.leaves if l.kind == "assign" and key(l.target) == "wdata_buffer.sink.we"]
-            if not app or "wdata_sel" not in support(app[0].value) or "wdata_converter.source.we" not in support(app[0].value):
+            if not app or (ws and key(ws[0].target) not in support(app[0].value)) or "wdata_converter.source.we" not in support(app[0].value):
                 ob.refute("up-mask-apply:%s" % tag, "converted byte enables are not ANDed with the widened lane mask", app[0].loc if app else None)
 
 
@@ -239,7 +240,8 @@ def lane_order(ctx):
         k = ratio.bit_length() - 1
         fs = v.fsms("")[0]
         # the merge state: the state that ORs new lanes into sel
-        merge = [l for l in v.fsm_leaves(fs) if l.kind == "nextvalue" and key(l.target) == "sel" and "sel" in support(l.value)]
+        merge = [l for l in v.fsm_leaves(fs) if l.kind == "nextvalue" and isinstance(l.value, Op) and l.value.op == "|" and key(l.target) in support(l.value)
+                 and any(isinstance(t_, Op) and t_.op == "<<" for t_ in subterms(l.value))]
         if not ob.need(len(merge) == 1, "ratio=%d: the state that merges further commands into the open word was not found" % ratio):
             continue
         closers = [a for a, p in v.guard_lits(merge[0], False) if not p]
@@ -253,7 +255,7 @@ def lane_order(ctx):
                 for dj, pj in (disj(t) if isinstance(t, Op) and t.op == "|" else [(t, True)]):
                     sup_keys = {key(x) for x in subterms(dj)}
                     detail.append(key(dj))
-                    if lane in sup_keys and "sel" in sup_keys:
+                    if lane in sup_keys and key(merge[0].target) in sup_keys:
                         joint = True
         ob.instance("ratio=%d merge guard" % ratio, {"closing condition disjuncts": detail, "joint(sel, lane)": joint})
         if not joint:
